@@ -43,6 +43,9 @@ var props = map[string]propSpec{
 	"C01": {Scenarios: []string{"csync"}},
 	"C02": {Scenarios: []string{"csync"}},
 	"C03": {Scenarios: []string{"bcast"}},
+	"C08": {Scenarios: []string{"refcount"}},
+	"C09": {Scenarios: []string{"refcount"}},
+	"C10": {Scenarios: []string{"refcount"}},
 	"C06": {Scenarios: []string{"keyedset"}},
 	"C07": {Scenarios: []string{"keyedrun", "keyedset"}},
 	"C04": {Scenarios: []string{"routine"}},
